@@ -39,6 +39,7 @@ func main() {
 	jsonOut := fs.String("json", "", "machine-readable copy of the cases")
 	blocks := fs.Int("blocks", 30, "blocks per history")
 	profile := fs.String("profile", "", "generator profile")
+	evals := fs.String("evals", "", "name=expr|name=expr... evaluated on the cases")
 	_ = fs.Parse(os.Args[2:])
 
 	switch cmd {
@@ -57,7 +58,14 @@ func main() {
 		}
 		writeStats(*stats, map[string]interface{}{"vectors": st, "probe": preimage.Probe(*seed, *n)})
 	case "app":
-		st, err := apph.GenerateCases(*seed, *n, *blocks, *out, *scratch, *jsonOut, *profile)
+		st, err := apph.GenerateCases(*seed, *n, *blocks, *out, *scratch, *jsonOut, *profile, *evals)
+		if err != nil {
+			fmt.Fprintln(os.Stderr, "error:", err)
+			os.Exit(3)
+		}
+		writeStats(*stats, st)
+	case "app-replay":
+		st, err := apph.ReplayCases(*jsonOut, *out, *scratch, *evals)
 		if err != nil {
 			fmt.Fprintln(os.Stderr, "error:", err)
 			os.Exit(3)
